@@ -178,6 +178,8 @@ pub struct SchedStats {
     /// threads that were waiting (spinning) when a fault fired
     pub waiters_at_fault: u64,
     pub choice_points: u64,
+    /// the threads ran one after another (sequential engine, or the schedule engine without preemption)
+    pub sequential: bool,
 }
 
 #[derive(Clone, Debug)]
